@@ -147,11 +147,11 @@ func restore(dir string, k reqKind, data []byte) (string, string) {
 func TestVerif_C21_Remote(t *testing.T) {
 	vnode.QuietLogs()
 	rec := vstat.New(t, "C21", "remote",
-		"2-node cluster; database of generated size (rows {3,200,3000} x value length {5,200}); per case 6..12 (thorough ..40) backups requested on the follower through proxy.Backup with format {binary,delete,sql} x compress x vacuum and the leader->follower byte stream cut after n bytes, n over [0, uncut length] weighted to both ends, plus uncut runs; non-trivial = a cut fell strictly inside the stream; distinct by (format,compress,vacuum,cut position class,rows)")
+		"2-node cluster; database of generated size (rows {3,200,3000} x value length {5,200}); per case 6..12 (thorough ..20) backups requested on the follower through proxy.Backup with format {binary,delete,sql} x compress x vacuum and the leader->follower byte stream cut after n bytes, n over [0, uncut length] weighted to both ends, plus uncut runs; non-trivial = a cut fell strictly inside the stream; distinct by (format,compress,vacuum,cut position class,rows)")
 	rapid.Check(t, func(rt *rapid.T) {
 		rows := rapid.SampledFrom([]int{3, 200, 3000}).Draw(rt, "rows")
 		vlen := rapid.SampledFrom([]int{5, 200}).Draw(rt, "vlen")
-		nreq := rapid.IntRange(6, vstat.Scale(12, 40)).Draw(rt, "nReqs")
+		nreq := rapid.IntRange(6, vstat.Scale(12, 20)).Draw(rt, "nReqs")
 
 		dir, err := os.MkdirTemp("", "c21r-")
 		if err != nil {
@@ -295,6 +295,9 @@ func TestVerif_C21_Remote(t *testing.T) {
 			if why == "" && got == want {
 				rec.Label("cut-but-complete")
 				continue
+			}
+			if why == "" {
+				why = "restores to a different database than the leader's"
 			}
 			sig := "C21/truncated-remote-backup-reported-ok"
 			if k.Compress {
